@@ -200,6 +200,11 @@ func decisionTable(r *ev.Run) {
 				var mu sync.Mutex
 				var dialed []int
 				tcpDials := 0
+				if si%2 == 1 {
+					// Transport.Dialer is an exported field ("This Dialer is used to dial the TLS connection"): a caller may REPLACE it
+					// instead of editing what NewTransport put there; the Dialer in the field is the one that dials
+					tr.Dialer = ech.NewDialer()
+				}
 				tr.Dialer.MaxConcurrency = 1
 				tr.Dialer.ConcurrencyDelay = time.Millisecond // a failure that is reported before the feeder waits does not wake it: keep the fallback delay short
 				tr.Dialer.DialFunc = func(ctx context.Context, network, addr string, tc *tls.Config) (*tls.Conn, error) {
@@ -224,7 +229,7 @@ func decisionTable(r *ev.Run) {
 				resp, err := tr.RoundTrip(req)
 				tr.HTTPTransport.CloseIdleConnections()
 				wantH3, wantKept := model(set, withH3)
-				replay := map[string]any{"records": set, "http3_transport_set": withH3, "http3_transport_answers": h3mode == 2, "records_share_one_target_name": sharedTarget}
+				replay := map[string]any{"records": set, "dialer_field_replaced": si%2 == 1, "http3_transport_set": withH3, "http3_transport_answers": h3mode == 2, "records_share_one_target_name": sharedTarget}
 				switch {
 				case wantH3 && h3mode == 2:
 					// the HTTP/3 round-tripper answered: the caller gets that response, attributed to the request the caller made
